@@ -68,6 +68,18 @@ CHECKS["C04"] = dict(
     technique="symbolic execution of rustc MIR (mirsym) with string-valued SMT variables + z3; oracle = CNB rules as an SMT term; witness replay on the real crate",
     note="OsString = string of code units; BTreeMap ordered by the key's own Ord (MIR). " + BASE_NOTE)
 
+CHECKS["C11"] = dict(
+    text="Bounded model checking from MIR of the delete/recreate path (BuildContext::uncached_layer -> handle_layer -> read_layer, "
+         "delete_layer, remove_dir_recursively incl. its recursion, default_on_not_found, create_layer, write_layer) over a file-system model "
+         "with owner permission bits and symbolic links: the layer path is absent, a directory (4 modes) or a symlink to an outside dir / "
+         "outside file / sibling layer / nothing; two entries each absent, file, directory (4 modes, optional child file or outward symlink) "
+         "or a symlink with 7 kinds of target (outside file/dir, sibling layer, inside path, itself, dangling, relative escape); canary tree "
+         "and sibling layer with symbolic modes. Per path the solver decides that every node outside the layer keeps kind, mode and content "
+         "(on Ok and on Err) and that on Ok all of the layer's own entries are gone.",
+    design_ref="DESIGN.md §5 C11",
+    technique="symbolic execution of rustc MIR (mirsym) over a POSIX file-system model with permission bits and symlinks + z3; witness replay as an unprivileged user on a real temp dir",
+    note="Process is the owner of every node and not root; depth <= 2, <= 2 entries per directory. " + BASE_NOTE)
+
 NOT_YET = "check not built yet in this round (see DESIGN.md §9 build order); no claim is made"
 NOT_APPLICABLE = {}
 ALL = [f"C{i:02d}" for i in range(1, 21)]
